@@ -45,3 +45,33 @@ func TestsItsError(ctx sdk.Context, b bank, to sdk.AccAddress, c sdk.Coins) (err
 	err = b.SendCoinsFromModuleToAccount(ctx, "y", to, c)
 	return err
 }
+
+type orders interface {
+	Mark(ctx sdk.Context, id uint64) error
+	Pay(ctx sdk.Context, id uint64) error
+}
+
+// MixesContexts marks the order on a branch of the state but pays on the parent context: when the branch is dropped the
+// payment stays (positive for A6.one-context).
+func MixesContexts(ctx sdk.Context, o orders, id uint64) {
+	cacheCtx, write := ctx.CacheContext()
+	if err := o.Mark(cacheCtx, id); err != nil {
+		return
+	}
+	if err := o.Pay(ctx, id); err != nil {
+		return
+	}
+	write()
+}
+
+// OneContext runs both steps on the branch (negative).
+func OneContext(ctx sdk.Context, o orders, id uint64) {
+	cacheCtx, write := ctx.CacheContext()
+	if err := o.Mark(cacheCtx, id); err != nil {
+		return
+	}
+	if err := o.Pay(cacheCtx.WithBlockHeight(1), id); err != nil {
+		return
+	}
+	write()
+}
